@@ -106,7 +106,7 @@ ErrCall(r) ==
 New(r, voc) ==
     /\ r.ev = "New"
     /\ LET s == [hist |-> <<>>, mode |-> IF r.ok = 1 THEN "ok" ELSE "err",
-                 stop |-> "NotStopped", c |-> r.vid, n |-> voc.n, eos |-> voc.eos,
+                 stop |-> "NotStopped", c |-> r.vid, cfgi |-> r.c, n |-> voc.n, eos |-> voc.eos,
                  canon |-> voc.canon]
        IN /\ Put(r.e, s)
           /\ PostOk(r, s)
@@ -132,7 +132,11 @@ Mask(r) ==
        THEN (* asking for a mask after a stop is an error and latches the failure;   *)
             (* a mask may otherwise fail only with a resource limit                  *)
             /\ r.ok = 0
-            /\ Stopped(r.e) \/ r.cls = "limit"
+            (* "empty": no token of the vocabulary can continue (NoExtensionBias); only possible    *)
+            (* where nothing is known to be acceptable (whether that is legitimate is C03's claim) *)
+            /\ \/ Stopped(r.e)
+               \/ r.cls = "limit"
+               \/ r.cls = "empty" /\ PosOf(<<s.c, s.hist>>) = {}
             /\ Put(r.e, Failed(s)) /\ PostOk(r, Failed(s))
             /\ UNCHANGED <<F, A>>
        ELSE LET M == SeqToSet(r.set)
